@@ -1110,9 +1110,14 @@ class Interp:
             if t is None:
                 t = self.ops.decide_test(e, v, env)
             if t is not None:
+                booly = lambda x: (isinstance(x, Const) and isinstance(x.v, bool)) or (isinstance(x, TV) and x.kind == "pybool")
                 if is_and and not t:
+                    if vals and all(booly(x) for x in vals) and booly(v):
+                        return FALSE  # `flag and False` over booleans: False whatever the flag
                     return v if not vals else self.ops.boolop(n.op, vals + [v], n)
                 if not is_and and t:
+                    if vals and all(booly(x) for x in vals) and booly(v):
+                        return TRUE  # `flag or True` over booleans: True whatever the flag
                     return v if not vals else self.ops.boolop(n.op, vals + [v], n)
                 continue  # neutral element
             vals.append(v)
